@@ -191,6 +191,7 @@ def run(rep: Report, tier: str) -> None:
 	rb.check('new_meta != old_meta' in unparse(ct.node) and 'if not old_meta' in unparse(ct.node), 'compare', ct.where, 'can_transpile no longer regenerates when the old header is missing or differs')
 
 	# ---- (c) read path == write path -----------------------------------------------------------------------------------------
+	rule_paths(rep, idx)
 	rc = rep.rule('C06/read-path-is-write-path', 'the old header is read from the path the output is written to; non-forced runs filter with can_transpile, forced runs take every module', floor=4)
 	tl = tr.func('Runner.try_load_meta_header')
 	ri = tr.func('Runner._run_impl')
@@ -206,3 +207,42 @@ def run(rep: Report, tier: str) -> None:
 		rc.check(isinstance(sel.orelse, ast.ListComp) and 'self.can_transpile(module_path)' in unparse(sel.orelse) and 'for module_path in self.module_paths' in unparse(sel.orelse), 'non-forced-filter', ri.where, f'non-forced branch is `{unparse(sel.orelse)}`')
 	loop = next((n for n in ast.walk(ri.node) if isinstance(n, ast.For)), None)
 	rc.check(loop is not None and 'self.transpiler.transpile(self.by_entrypoint(module_path))' in unparse(loop) and 'writer.put(content)' in unparse(loop) and 'writer.flush()' in unparse(loop), 'write-each-target', ri.where, 'each selected module is no longer transpiled and written')
+
+
+# ---- (d) output path mapping: each rule maps distinct module files to distinct outputs ---------------------------------------------
+
+def rule_paths(rep: Report, idx: SourceIndex) -> None:
+	r = rep.rule('C06/output-path-injective-per-rule', 'every branch of Runner.fetch_output_path joins the output directory with the file path itself or with the path minus its *leading* matched prefix (an injective transformation), so distinct modules matched by one rule never share an output file', floor=3)
+	m = idx.mod(TRANSPILE)
+	f = m.func('Runner.fetch_output_path')
+	from vlib.flow import parent_map
+	pm = parent_map(f.node)
+	rets = [n for n in ast.walk(f.node) if isinstance(n, ast.Return)]
+	if len(rets) < 3:
+		r.undecided('returns', f.where, f'fetch_output_path has {len(rets)} returns; expected glob rule, prefix rule, fallback')
+	for ret in rets:
+		v = ret.value
+		key = f'fetch_output_path:{unparse(v)[:70]}'
+		if not (isinstance(v, ast.Call) and attr_chain(v.func) == 'os.path.join' and len(v.args) == 2):
+			r.undecided(key, (TRANSPILE, ret.lineno), 'return is not os.path.join(<dir>, <path>)')
+			continue
+		p = v.args[1]
+		src = unparse(p)
+		test = None
+		cur = ret
+		while id(cur) in pm:
+			par = pm[id(cur)]
+			if isinstance(par, ast.If) and any(cur is s_ for s_ in par.body):
+				test = unparse(par.test)
+				break
+			cur = par
+		if src in ('filepath', '_filepath'):
+			r.ok(key, (TRANSPILE, ret.lineno))
+		elif isinstance(p, ast.Subscript) and isinstance(p.slice, ast.Slice) and p.slice.upper is None and p.slice.lower is not None and unparse(p.value) in ('filepath', '_filepath') and unparse(p.slice.lower) == 'len(condition)':
+			r.check(test is not None and '_filepath.startswith(condition)' in test, key, (TRANSPILE, ret.lineno), f'the leading len(condition) characters are cut although the branch does not establish that the path starts with `condition` (test: {test})')
+		elif isinstance(p, ast.Call) and isinstance(p.func, ast.Attribute) and p.func.attr == 'removeprefix':
+			r.ok(key, (TRANSPILE, ret.lineno))
+		elif isinstance(p, ast.Call) and isinstance(p.func, ast.Attribute) and p.func.attr in ('replace', 'strip', 'lstrip', 'rstrip', 'split'):
+			r.violate(key, (TRANSPILE, ret.lineno), f'`{src}` is not injective on file paths ({p.func.attr} affects every occurrence / a character set, not just the matched leading prefix): two modules such as src/lib/util.py and src/lib/src/util.py map to one output file, and forced vs non-forced runs then diverge', src)
+		else:
+			r.undecided(key, (TRANSPILE, ret.lineno), f'cannot classify the path transformation `{src}`')
